@@ -69,5 +69,9 @@ check("C16", "exploration",
       "Inverse-law oracle kill o yank: for 10 Emacs kill commands bound by name (and Vi x/P) from every cursor position of 15 history-recalled buffers with numeric arguments and multi-kill sequences, the kill buffer must be exactly the removed text (L1[:i] + R + L1[i:] == L) and an immediate yank at that point must restore the buffer; after several kills yank gives the most recent.",
       TCB, "runtime monitoring: inverse-law oracle on before/after snapshots and the public kill-buffer getter", "DESIGN.md 5 C16")
 
+check("C17", "exploration",
+      "Differential oracle on pairs of sessions from an identical observed state: d<motion> vs y<motion> (and v<motion>d / v<motion>y) for 73 motions and text objects with counts: yank leaves the buffer unchanged, both registers are equal, and the deleted text re-inserted at one place gives back the original buffer.",
+      TCB, "runtime monitoring: differential oracle (delete vs yank) over paired sessions", "DESIGN.md 5 C17")
+
 for _p in ["C03","C04","C05","C06","C07","C08","C09","C10","C11","C12","C13","C14","C15","C16","C17","C18","C19","C20"]:
     NOT_YET[_p] = "check under construction in this session (runtime monitor designed in DESIGN.md section 5, not yet registered)"
